@@ -109,6 +109,11 @@ def check(ctx):
     tests = [n for n in ast.walk(fs) if isinstance(n, ast.If) and "b.stop" in unparse(n.test)]
     ok = bool(tests) and all(unparse(n.test) in ("b.stop is not None", "a.stop is not None and b.stop is not None", "b.stop is None") or "is not None" in unparse(n.test) or "is None" in unparse(n.test) for n in tests)
     ctx.ob("ALG.fuse-slice.stop", fs, "fuse_slice tests the stops with `is (not) None`", ok, "" if ok else "a stop of 0 is treated as missing: x[2:][:0] is fused into x[2:] and computes more rows than the lazy shape says")
+    # ---------------- per-block dtype of sequential scans (shared with C22): the carry blocks have the scan dtype
+    red_ = model.module("dask/array/reductions.py").func("cumreduction")
+    fl_ = [t for t in ast.walk(red_) if isinstance(t, ast.Tuple) and len(t.elts) == 4 and unparse(t.elts[1]) == "np.full_like"]
+    ok = len(fl_) == 1 and unparse(fl_[0].elts[2]) == "(x._meta, ident, m.dtype)"
+    ctx.ob("ALG.scan.carry-dtype", red_, "cumreduction: the carry blocks are created with m.dtype (the declared dtype of the result)", ok, "" if ok else "blocks after the first take the input dtype while the array declares the requested dtype")
 
 
 VARIANTS = [
